@@ -3,7 +3,7 @@ from pyvc.api import contract
 from contracts.schema import CLS_OR_FN, MEMBER
 import spec.c05_spec  # noqa: F401  (registers the spec functions)
 
-ROLE = 'tuple[str,%s,%s,str]' % (CLS_OR_FN, MEMBER)
+ROLE = 'tuple[str,%s,%s,str,bool]' % (CLS_OR_FN, MEMBER)
 GHOST = {'siteCount': 'arr[Int,Int]', 'siteRole': 'arr[Int,Val:%s]' % ROLE}
 INV_MOD = ['self.wrapper_id', 'dict(self.wrapper_map)', 'ghost:siteCount', 'ghost:siteRole:arr[Int,Val:%s]' % ROLE]
 LOOP_MOD = INV_MOD
@@ -39,7 +39,7 @@ contract('MatlabWrapper.wrap_class_deconstructor',
          modifies=INV_MOD,
          ensures=['c05_inv(self)', 'self.wrapper_id >= old(self.wrapper_id)'],
          holes=[dict(match=r'\{wrapper\}\(\{num\}, obj\.ptr_', key='num', count='siteCount',
-                     set={'siteRole': "('deconstructor', inst_class, None, namespace_name + inst_class.name + '_deconstructor')"})])
+                     set={'siteRole': "('deconstructor', inst_class, None, namespace_name + inst_class.name + '_deconstructor', False)"})])
 
 NS_PARENT = 'isinstance(inst_class.parent, Namespace)'
 SITE = dict(ghost=GHOST, modifies=INV_MOD)
@@ -59,43 +59,44 @@ site('MatlabWrapper.wrap_global_function',
      requires=['len(function) >= 1', 'isinstance(function[0].parent, Namespace)'],
      loops={0: LOOP},
      holes=[dict(match=r'\{varargout\}\{module_name\}_wrapper\(\{num\}', key='num', count='siteCount',
-                 set={'siteRole': "('global_function', overload, None, overload.name)"})])
+                 set={'siteRole': "('global_function', overload, None, overload.name, False)"})])
 
 site('MatlabWrapper.wrap_class_constructors',
      params={'namespace_name': 'str', 'inst_class': 'ref:InstantiatedClass', 'parent_name': 'str|ref:Typename',
              'ctors': 'list[ref:Constructor]', 'is_virtual': 'str'},
      loops={0: LOOP},
      holes=[dict(match=r'my_ptr = \{wrapper_name\}\(\{id\}', key='id', count='siteCount',
-                 set={'siteRole': "('upcast', inst_class, None, '')"}),
+                 set={'siteRole': "('upcast', inst_class, None, '', True)"}),
             dict(match=r'\{ptr\}\{wrapper_name\}\(\{id\}, my_ptr\)', key='id', count='siteCount',
-                 set={'siteRole': "('collectorInsertAndMakeBase', inst_class, None, namespace_name + inst_class.name + '_collectorInsertAndMakeBase')"}),
+                 set={'siteRole': "('collectorInsertAndMakeBase', inst_class, None, namespace_name + inst_class.name + '_collectorInsertAndMakeBase', False)"}),
             dict(match=r'\{ptr\}\{wrapper\}\(\{num\}', key='num', count='siteCount',
-                 set={'siteRole': "('constructor', inst_class, ctor, namespace_name + inst_class.name + '_constructor')"})])
+                 set={'siteRole': "('constructor', inst_class, ctor, namespace_name + inst_class.name + '_constructor', False)"})])
 
 site('MatlabWrapper.wrap_class_properties',
      params={'namespace_name': 'str', 'inst_class': 'ref:InstantiatedClass'}, returns='list[str]',
      loops={0: LOOP},
      holes=[dict(match=r'\{varargout\} = \{wrapper\}\(\{num\}, this\)', key='num', count='siteCount',
-                 set={'siteRole': "(propty.name, inst_class, propty, namespace_name + inst_class.name + '_get_' + propty.name)"}),
+                 set={'siteRole': "(propty.name, inst_class, propty, namespace_name + inst_class.name + '_get_' + propty.name, False)"}),
             dict(match=r'\{wrapper\}\(\{num\}, this, value\)', key='num', count='siteCount',
-                 set={'siteRole': "(propty.name, inst_class, propty, namespace_name + inst_class.name + '_set_' + propty.name)"})])
+                 set={'siteRole': "(propty.name, inst_class, propty, namespace_name + inst_class.name + '_set_' + propty.name, False)"})])
 
 site('MatlabWrapper.wrap_class_serialize_method',
      params={'namespace_name': 'str', 'inst_class': 'ref:InstantiatedClass'},
      holes=[dict(match=r'\{wrapper\}\(\{wrapper_id\}, this, varargin', key='wrapper_id', count='siteCount',
-                 set={'siteRole': "('string_serialize', inst_class, 'serialize', namespace_name + inst_class.name + '_string_serialize')"})])
+                 set={'siteRole': "('string_serialize', inst_class, 'serialize', namespace_name + inst_class.name + '_string_serialize', False)"})])
 
 site('MatlabWrapper.wrap_class_methods',
      params={'namespace_name': 'str', 'inst_class': 'ref:InstantiatedClass', 'methods': 'list[ref:InstantiatedMethod]',
              'serialize': 'list[bool]|tuple[bool]'},
-     loops={0: LOOP, 1: LOOP},
+     requires=['len(serialize) >= 1'],
+     loops={0: dict(LOOP, inv=LOOP['inv'] + ['len(serialize) >= 1']), 1: dict(LOOP, inv=LOOP['inv'] + ['len(serialize) >= 1'], defines={'class_name': 'str'})},
      holes=[dict(match=r'\{varargout\}\{wrapper\}\(\{num\}, this, varargin', key='num', count='siteCount',
-                 set={'siteRole': "(overload.original.name, inst_class, overload, namespace_name + inst_class.name + '_' + overload.original.name)"})])
+                 set={'siteRole': "(overload.original.name, inst_class, overload, namespace_name + inst_class.name + '_' + overload.original.name, False)"})])
 
 site('MatlabWrapper.wrap_static_methods',
      params={'namespace_name': 'str', 'instantiated_class': 'ref:InstantiatedClass', 'serialize': 'bool'},
-     loops={0: LOOP, 1: LOOP},
+     loops={0: LOOP, 1: dict(LOOP, defines={'static_overload': 'ref:StaticMethod'})},
      holes=[dict(match=r'STRING_DESERIALIZE usage', key='id', count='siteCount',
-                 set={'siteRole': "('string_deserialize', instantiated_class, 'deserialize', namespace_name + instantiated_class.name + '_string_deserialize')"}),
+                 set={'siteRole': "('string_deserialize', instantiated_class, 'deserialize', namespace_name + instantiated_class.name + '_string_deserialize', False)"}),
             dict(match=r'varargout\{\{1\}\} = \{wrapper\}\(\{id\}, varargin', key='id', count='siteCount',
-                 set={'siteRole': "(static_overload.name, instantiated_class, static_overload, namespace_name + instantiated_class.name + '_' + static_overload.name)"})])
+                 set={'siteRole': "(static_overload.name, instantiated_class, static_overload, namespace_name + instantiated_class.name + '_' + static_overload.name, False)"})])
